@@ -294,7 +294,11 @@ func runC10(c *an.Ctx) {
 				_, ok := an.StoreToField(x, fullWAF, "BodyBuffer", "length")
 				return ok
 			}, Target: func(x ssa.Instruction) bool { return x == in }})
-			c.Check(w == nil, "R5", "BodyBuffer.Write: length updated on the path of each data write ("+c.P.Position(in.Pos())+")", in.Pos(), "accounting store precedes the write", "data can be written without updating length")
+			tgt := "memory"
+			if isFile {
+				tgt = "spill file"
+			}
+			c.Check(w == nil, "R5", "BodyBuffer.Write: length updated on the path of the "+tgt+" write", in.Pos(), "accounting store precedes the write", "data can be written without updating length")
 		})
 	}
 
